@@ -200,20 +200,15 @@ def rule_SL(ctx, tier):
     for bb, v in ws:
         # value = (available as i64 - diff) as u32 with diff = required - used
         s = og.show(v)
-        fs = [(x[1], x[2]) for x in facts_at(ctx, b, bb) if x[0] == "truth"]
+        from .rulekit import relations
         guard = None
-        for subj, val in fs:
-            if subj[0] == "bin" and subj[1] in ("Le", "Lt", "Ge", "Gt"):
-                guard = (subj, val)
         ok_guard = False
-        if guard:
-            subj, val = guard
-            # diff <= available  (true)   or   available >= diff (true)
-            lhs, rhs = og.show(subj[2]), og.show(subj[3])
-            if val is True and subj[1] == "Le" and "f:available_slots" in rhs and "compute_appointment_slots" in lhs:
-                ok_guard = True
-            if val is True and subj[1] == "Ge" and "f:available_slots" in lhs and "compute_appointment_slots" in rhs:
-                ok_guard = True
+        for op, l, r in relations(ctx, b, bb):
+            ls, rs = og.show(l), og.show(r)
+            if "compute_appointment_slots" in ls and "f:available_slots" in rs and "compute_appointment_slots" not in rs:
+                guard = (("bin", op, l, r), True)
+                if op in ("Le", "Lt", "Eq"):
+                    ok_guard = True
         if ok_guard:
             rr.ok("charge guarded by diff <= available_slots", sample={"rule": "SL", "write": s[:200], "guard": og.show(guard[0])[:200]})
         else:
@@ -325,10 +320,15 @@ def rule_SL(ctx, tier):
 
 # ----------------------------------------------------------------------------------------------- C09
 def _cmp(term):
-    """normalise a comparison term to (op, lhs, rhs) with op in Ge/Gt/Le/Lt/Eq/Ne"""
-    if term[0] == "bin" and term[1] in ("Ge", "Gt", "Le", "Lt", "Eq", "Ne"):
-        return term[1], term[2], term[3]
-    return None
+    """normalise a comparison term to (op, lhs, rhs); handles !(a < b) and returns the orientation as written"""
+    from .rulekit import rel_of_term
+    r = rel_of_term(term, True)
+    return r[0] if r else None
+
+
+def _cmp_any(term, pred):
+    from .rulekit import rel_of_term
+    return any(pred(op, l, r) for op, l, r in rel_of_term(term, True))
 
 
 def rule_SB(ctx, tier):
@@ -341,10 +341,7 @@ def rule_SB(ctx, tier):
         tup = dict(ret[3]).get("0")
         if tup and tup[0] == "tuple" and len(tup[1]) == 2:
             cmp_, exp = tup[1]
-            k = _cmp(cmp_)
-            if k and k[0] == "Ge" and has_call(k[1], "Atomic", "load") and "f:last_known_block_height" in og.show(k[1]) and og.show(k[2]).endswith("f:subscription_expiry") and og.show(exp).endswith("f:subscription_expiry"):
-                good = True
-            if k and k[0] == "Le" and has_call(k[2], "Atomic", "load") and og.show(k[1]).endswith("f:subscription_expiry"):
+            if _cmp_any(cmp_, lambda op, l, r: op == "Ge" and has_call(l, "Atomic", "load") and "f:last_known_block_height" in og.show(l) and og.show(r).endswith("f:subscription_expiry")) and og.show(exp).endswith("f:subscription_expiry"):
                 good = True
     if good:
         rr.ok("expired = (last_known_block_height >= subscription_expiry), reports that expiry", sample={"rule": "SB", "has_subscription_expired returns": og.show(ret)[:200]})
@@ -358,12 +355,7 @@ def rule_SB(ctx, tier):
             rr.fail("expiry-user", "has_subscription_expired looks up `%s`" % og.show(arg_origin(ctx, h, bb, 1)), where=h.line_of(bb))
     f = P.require(GK + "get_outdated_users::{closure#0}")
     ret = ctx.og.local(f, 0)
-    k = _cmp(ret)
-    good = False
-    if k and k[0] == "Ge" and k[1] == ("param", GK + "get_outdated_users", 2):
-        s = og.show(k[2])
-        if "Add" in s and "f:subscription_expiry" in s and "f:expiry_delta" in s:
-            good = True
+    good = _cmp_any(ret, lambda op, l, r: op == "Ge" and l == ("param", GK + "get_outdated_users", 2) and "Add" in og.show(r) and "f:subscription_expiry" in og.show(r) and "f:expiry_delta" in og.show(r))
     if good:
         rr.ok("outdated = (block_height >= subscription_expiry + expiry_delta)", sample={"rule": "SB", "get_outdated_users filter": og.show(ret)[:200]})
     else:
